@@ -202,7 +202,57 @@ func minInt(a, b int) int {
 
 // prefixSiblings: s with one letter/hex token t replaced by t+x, t+y (x != y) and by a proper
 // prefix of t: three or four texts that differ only by a prefix relation in one token.
-func prefixSiblings(r *RNG, s string) []string {
+func prefixSiblings(r *RNG, s string) []string { return prefixSiblingsAfter(r, s, 0) }
+
+// prefixSiblingsAfter: as prefixSiblings; after != 0 prefers the run that follows that byte.
+func prefixSiblingsAfter(r *RNG, s string, after byte) []string {
+	// mode 1: a maximal alphanumeric run that has a letter (a hash, a tag) is extended at its end
+	if r.Chance(60) || after != 0 {
+		var runs [][2]int
+		for i := 0; i < len(s); {
+			if tokClass(s[i]) == 2 {
+				i++
+				continue
+			}
+			j, letter := i, false
+			for j < len(s) && tokClass(s[j]) != 2 {
+				if tokClass(s[j]) == 1 {
+					letter = true
+				}
+				j++
+			}
+			if letter {
+				runs = append(runs, [2]int{i, j})
+			}
+			i = j
+		}
+		if len(runs) > 0 {
+			run := runs[r.Intn(len(runs))]
+			if r.Chance(60) {
+				run = runs[len(runs)-1]
+			}
+			if after != 0 {
+				for _, ru := range runs {
+					if ru[0] > 0 && s[ru[0]-1] == after {
+						run = ru
+					}
+				}
+			}
+			alpha := "abcdef0123456789"
+			x := alpha[r.Intn(len(alpha))]
+			y := alpha[r.Intn(len(alpha))]
+			for y == x {
+				y = alpha[r.Intn(len(alpha))]
+			}
+			t := s[run[0]:run[1]]
+			mk := func(nt string) string { return s[:run[0]] + nt + s[run[1]:] }
+			out := []string{mk(t + string(x)), mk(t + string(y)), mk(t + string(x) + string(y))}
+			if len(t) > 1 {
+				out = append(out, mk(t[:len(t)-1]))
+			}
+			return out
+		}
+	}
 	ts := tokens(s)
 	var idx []int
 	for i, t := range ts {
@@ -271,4 +321,42 @@ func decorations(r *RNG, s string) []string {
 		out = append(out, s+r.Pick([]string{"+build.5", "+b.1.2", "+20240101.1", "+a-b.c", "+001", "+exp.sha.5114f85"}))
 	}
 	return out
+}
+
+// pickRare: a candidate that contains one of the three rarest punctuation bytes of the candidate
+// set (def if there is none).
+func pickRare(r *RNG, all []string, def string) (string, byte) {
+	freq := map[byte]int{}
+	for _, s := range all {
+		seen := map[byte]bool{}
+		for i := 0; i < len(s); i++ {
+			if c := s[i]; tokClass(c) == 2 && c > ' ' && c < 0x7f && !seen[c] {
+				seen[c] = true
+				freq[c]++
+			}
+		}
+	}
+	type kv struct {
+		c byte
+		n int
+	}
+	var ks []kv
+	for c, n := range freq {
+		ks = append(ks, kv{c, n})
+	}
+	if len(ks) == 0 {
+		return def, 0
+	}
+	sort.Slice(ks, func(i, j int) bool { return ks[i].n < ks[j].n || (ks[i].n == ks[j].n && ks[i].c < ks[j].c) })
+	c := ks[r.Intn(minInt(3, len(ks)))].c
+	var with []string
+	for _, s := range all {
+		if strings.IndexByte(s, c) >= 0 && len(s) < 60 {
+			with = append(with, s)
+		}
+	}
+	if len(with) == 0 {
+		return def, 0
+	}
+	return with[r.Intn(len(with))], c
 }
